@@ -18,6 +18,7 @@ import (
 func unwindQRSelect(cc *checkCtx) []oblRes {
 	label := "config/qr.findSmallestVersionInfo"
 	c := exec.NewConc(cc.P)
+	c.X.SplitLoopExits = true
 	var out []oblRes
 	err := c.Try(func() {
 		ref := "qr.findSmallestVersionInfo"
